@@ -67,7 +67,9 @@ def decorators(fn):
 
 
 def is_property(fn):
-    return "property" in decorators(fn)
+    # (a cached_property is read like a property; that its cache is dropped when what it reads changes is R-CACHE's business)
+    d = decorators(fn)
+    return "property" in d or "cached_property" in d or "functools.cached_property" in d
 
 
 def is_static(fn):
